@@ -35,9 +35,9 @@ def _prs_case():
 
 
 def strategy(tier):
-    return st.one_of(gen_store.case(CLASSES, WEIGHTS, max_ops=40, cap_max=2),
-                     gen_store.case(CLASSES, WEIGHTS, max_ops=40, cap_max=2),
-                     gen_store.case(CLASSES, WEIGHTS, max_ops=40, cap_max=2),
+    return st.one_of(gen_store.case(CLASSES, WEIGHTS, max_ops=40, cap_max=2, macros=4, extra=5),
+                     gen_store.case(CLASSES, WEIGHTS, max_ops=40, cap_max=2, macros=4, extra=5),
+                     gen_store.case(CLASSES, WEIGHTS, max_ops=40, cap_max=2, macros=4, extra=5),
                      _prs_case())
 
 
